@@ -3293,6 +3293,29 @@ pub fn run(args: &Args, out: &mut Out) {
         for _ in 0..rng.range(0, 2) {
             tuples.push(centre.iter().map(|c| random_arg(&mut rng, *c)).collect());
         }
+        // the same types in another value category (an rvalue, a const object): a verdict may be shared between calls
+        // only if the arguments are the same *expression types*
+        let is_array = |t: &Ty| matches!(t.layer, Layer::Other(i) if (100..200).contains(&i));
+        if rng.chance(1, 3) {
+            tuples.push(centre.iter().map(|c| ETy { lvalue: is_array(c), ty: *c }).collect());
+        }
+        if rng.chance(1, 6) {
+            tuples.push(
+                centre
+                    .iter()
+                    .map(|c| ETy { lvalue: true, ty: Ty { mods: Mods(if is_numeric(c.layer) { 1 } else { 0 }), layer: c.layer } })
+                    .collect(),
+            );
+        }
+        // templates: the same first argument with other later ones (an instantiation is found again by *all* its arguments)
+        if matches!(kind, 4 | 5) && centre.len() > 1 {
+            let mut t = tuples[0].clone();
+            for k in 1..t.len() {
+                t[k] = random_arg(&mut rng, centre[k]);
+            }
+            tuples.push(t);
+        }
+        tuples.dedup();
         let path = if kind == 9 { if i % 24 == 9 { SeqPath::TStruct } else { SeqPath::Method } } else { SeqPath::Free };
         let with_ns = matches!(kind, 5 | 6 | 7) || (path == SeqPath::Method && (i / 24) % 2 == 1);
         let with_helpers = matches!(kind, 7 | 8) ;
